@@ -98,4 +98,5 @@ EmitPacedInv == P!EmitPaced(cfg, Obs)
 EmitKeepUpInv == P!EmitKeepUp(cfg, Obs)
 GenSettleInv == P!GenSettle(cfg, Obs)
 Settle2Inv == P!Settle2(cfg, Obs)
+LiftClosesInv == P!LiftCloses(cfg, Obs)
 ====
